@@ -553,7 +553,7 @@ func (r *yieldRewriter) rewriteForStmt(
 
 	if trivalPost {
 		callFor := r.CallFor(
-			r.ForCondFun(stmt.Cond),
+			r.ForCondFun(r.boolCond(stmt.Cond)),
 			r.ForPostFun(stmt.Post),
 			r.CallDelay(body.block),
 		)
@@ -600,13 +600,25 @@ func (r *yieldRewriter) rewriteForStmt(
 	}
 
 	callFor := r.CallFor(
-		r.ForCondFun(stmt.Cond),
+		r.ForCondFun(r.boolCond(stmt.Cond)),
 		nil,
 		r.CallDelay(body.block),
 	)
 	children = r.combineIfNecessary(children)
 	children.pushReturn(callFor, kindFor)
 	return children
+}
+
+// the cond func returns bool, a condition of a named bool type (type B bool; for ok() { ... })
+// isn't assignable to it without a conversion
+func (r *yieldRewriter) boolCond(cond ast.Expr) ast.Expr {
+	if isNil(cond) {
+		return cond
+	}
+	if _, named := r.pkg.TypeOf(cond).(*types.Named); named {
+		return X.Call(X.Ident("bool"), cond)
+	}
+	return cond
 }
 
 func (r *yieldRewriter) combineIfNecessary(children *block) *block {
